@@ -145,10 +145,11 @@ def generate_fa_spectrum(sig, n_pad=True):
         points = int(n_factor / 2)
         assert len(fa) == n_factor
     else:
+        n_factor = npts
         fa = np.fft.fft(sig.values)
         points = int(sig.npts / 2)
     fa_spectrum = fa[range(points)] * sig.dt
-    fa_frequencies = np.arange(points) / (2 * points * sig.dt)
+    fa_frequencies = np.arange(points) / (n_factor * sig.dt)  # bin k is at k / (N * dt), also for odd N
     return fa_spectrum, fa_frequencies
 
 
@@ -177,10 +178,11 @@ def calc_fa_spectrum(sig, n=None, p2_plus=None):
         points = int(n_vals / 2)
         assert len(fa) == n_vals
     else:
+        n_vals = npts
         fa = np.fft.fft(sig.values)
         points = int(sig.npts / 2)
     fa_spectrum = fa[range(points)] * sig.dt
-    fa_frequencies = np.arange(points) / (2 * points * sig.dt)
+    fa_frequencies = np.arange(points) / (n_vals * sig.dt)  # bin k is at k / (N * dt), also for odd N
     return fa_spectrum, fa_frequencies
 
 
